@@ -5,6 +5,16 @@ ROOT = os.path.join(os.path.dirname(os.path.abspath(__file__)), "..")
 props = [json.loads(l) for l in open(os.path.join(ROOT, "properties.jsonl")) if l.strip()]
 
 CLAIMS = {
+    "C04": dict(
+        text="Lean 4 theorems: for every block, the CRC stored/emitted by encoding is be16(CRC-16/X.25) resp. be32(CRC-32C) of the block's own encoding with the CRC value reset to zeros, for CRC type 0 no CRC item exists, the bytes do not depend on prior CRC values (prior_crc_irrelevant), and decode(encode b) passes crcValid (crcValid_decode_encode), for every well-formed bundle and every prior CRC state. Model CRC and catalogue-parameter reference CRC are both pinned to the check values by kernel evaluation. Tie to the code: bundles mutated through the public mutators after a CRC computation are encoded by crate and model; an independent item scanner + bitwise CRC in the harness recomputes every CRC field on the wire; `crc16`/`crc32` ops compare crate, model, catalogue reference and an independent bitwise implementation on random/boundary strings.",
+        note="Trusted: Lean kernel; axioms propext, Quot.sound (+Classical.choice in helper lemmas); equality of the reflected bit-serial model CRC and the catalogue-parameter reference CRC is established by correspondence and check values, not by a theorem; the crc crate's table algorithm is not modelled.",
+        technique="Lean 4 proof (case analysis of calculate_crc over CRC states, idempotence of recomputation) + differential correspondence check",
+        design="§6 C04"),
+    "C07": dict(
+        text="Lean 4 theorem Bp7.C07.validate_iff_spec: for every bundle of decodable shape on which the stale reserved masks do not hit, the model of Bundle::validate returns no error iff the RFC rules of the property hold, where the rules are written independently (RFC bit positions via testBit, pairwise compatibility of blocks for unique numbers / singleton types, existence of a payload block, age block when creation time is zero). The loop with its two hash sets is related to List.Pairwise by induction for block lists of any length. Tie to the code: validate() of the real crate vs the model on the rule space (sampled in quick, complete in thorough) and on random bundles with one injected violation; error kinds compared in order; the oracle is a third, harness-side statement of the rules.",
+        note="Trusted: Lean kernel; axioms propext, Classical.choice, Quot.sound; bitflags from_bits_truncate/contains semantics and HashSet::insert modelled from source; extracted flag constants and the age-rule condition re-proved on every run.",
+        technique="Lean 4 proof (induction on the block list, bit-test lemmas) + differential correspondence check",
+        design="§6 C07"),
     "C01": dict(
         text="Lean 4 theorems over every well-formed bundle value (all field widths, any number of blocks, all EID kinds, every prior CRC state): decode(encode b) = b-after-encoding (Bp7.C01.decode_encode), idempotence, and 'only CRC values change'. The decoder in the theorem is a model of serde_cbor's visitor-driven parser (depth counter, size hints, swallowed dtn-ssp errors), not a generic CBOR parser. Tie to the code: every generated bundle is encoded and decoded by the real crate and by the compiled model and bytes + decoded value + stored CRCs are compared; the element order of the Serialize/Deserialize impls is re-extracted and re-proved on every run.",
         note="Trusted: Lean kernel; axioms propext, Quot.sound; the hand-written model of serde/serde_cbor/serde_bytes behaviour (modelled from source, exercised by correspondence); generators.",
